@@ -201,7 +201,7 @@ def panic_sites(c, local_names):
             if n is None or n == "<indirect>":
                 continue
             if is_panic_callee(n):
-                k = "panic:" + short_callee(n)
+                k = "panic:" + short_callee(n).replace("::expect", "::unwrap")    # unwrap and expect are one kind (same abort, different message)
                 mac = t.get("mac") or []
                 for m in ("assert_eq", "assert_ne", "assert", "panic", "unreachable", "unimplemented", "todo", "debug_assert"):
                     if m in mac:
